@@ -340,6 +340,11 @@ func runSQLite(args []string) {
 	for k := 0; k < 6; k++ {
 		engineRejections(r.Fork(), fail, dist)
 	}
+	// directed: rows read one by one into the same destination variable
+	for _, w := range sqliteReuse() {
+		fail("C17", map[string]any{"directed": "rows read back into one reused destination variable"}, w, "")
+	}
+	dist["reused-destination"]++
 	for i := 0; i < *n; i++ {
 		cr := r.Fork()
 		st := sqliteTypes[cr.Intn(len(sqliteTypes))]
